@@ -324,6 +324,9 @@ class Oracle:
         self.alive = {}
         self.violations = []     # (sig, observed)
         self.case = case
+        # (manager object, server) pairs whose local view has been invalidated by ANOTHER manager's action on
+        # a shared instance (witnessed concretely); value = the cause that explains follow-up mismatches
+        self.taint = {}
         nsrv = case['nsrv']
         # provenance: server -> {('f'|'d', name, sys) | ('s', f, h): ('static'|'owned'|'permanent', creator id)}
         self.prov = [dict() for _ in range(nsrv)]
@@ -415,15 +418,23 @@ class Oracle:
                                      {'mgr': mg['m'], 'server': k, 'list': lst})
                     for x in sorted(spec[cls] - set(have)):
                         self.violate({'kind': 'owned_list_mismatch', 'cls': cls, 'dir': 'missing',
-                                      'cause': self.cause_missing(k, cls, x, i, mg['m'])},
+                                      'cause': self.explain(mg['m'], k, self.cause_missing(k, cls, x, i, mg['m']))},
                                      {'mgr': mg['m'], 'id': i, 'server': k, 'instance': x, 'after': after})
                     for x in sorted(set(have) - spec[cls]):
                         self.violate({'kind': 'owned_list_mismatch', 'cls': cls, 'dir': 'extra',
-                                      'cause': self.cause_extra(k, cls, x, i, st)},
+                                      'cause': self.explain(mg['m'], k, self.cause_extra(k, cls, x, i, st))},
                                      {'mgr': mg['m'], 'id': i, 'server': k, 'instance': x, 'after': after})
 
     def degraded_cause(self, m, k):
-        return self.degraded.get((m, k), 'unexplained') if hasattr(self, 'degraded') else 'unexplained'
+        return self.taint.get((m, k), 'unexplained')
+
+    def explain(self, m, k, cause):
+        """a mismatch without a direct explanation on a pair known to be disturbed by another manager"""
+        if cause.startswith('unexplained') and (m, k) in self.taint:
+            return self.taint[(m, k)]
+        if cause == 'sub_end_owned_by_other_manager':
+            self.taint[(m, k)] = cause
+        return cause
 
     def remove_server_check(self, m, k, before, after, res):
         i = self.ids[m]
@@ -435,10 +446,10 @@ class Oracle:
                  {(tuple(s[0:2]), tuple(s[2:4])) for s in sta['s']}
         # which spec-owned instances did the manager not know (causes found by the list check earlier)
         def why_left(cls, x):
-            return self.cause_missing(k, cls, x, i, m)
+            return self.explain(m, k, self.cause_missing(k, cls, x, i, m))
 
         def why_taken(cls, x):
-            return self.cause_extra(k, cls, x, i, stb)
+            return self.explain(m, k, self.cause_extra(k, cls, x, i, stb))
         if 'ok' in res:
             for cls, owned, gone in (('f', fs, gone_f), ('d', ds, gone_d), ('s', ss, gone_s)):
                 for x in sorted(owned - gone):
@@ -464,9 +475,8 @@ class Oracle:
                 cause = self.degraded_cause(m, k)
             self.violate({'kind': 'remove_server_failed', 'exc': res.get('exc'), 'cause': cause},
                          {'mgr': m, 'id': i, 'server': k, 'result': res})
-            if not hasattr(self, 'degraded'):
-                self.degraded = {}
-            self.degraded[(m, k)] = cause
+            if cause != 'unexplained':
+                self.taint[(m, k)] = cause
             for cls, owned, gone in (('f', fs, gone_f), ('d', ds, gone_d), ('s', ss, gone_s)):
                 for x in sorted(gone - owned):
                     self.violate({'kind': 'remove_server_deleted_not_owned', 'cls': cls, 'cause': why_taken(cls, x)},
@@ -572,7 +582,33 @@ class Oracle:
             self.violate({'kind': 'query_changed_server'}, {'op': o})
         # ---- a failed single-instance operation leaves the server as it was (referenced / refused cases)
         if o in ('removeFilter',) and 'ok' not in res and before['stores'] != after['stores']:
-            self.violate({'kind': 'failed_remove_changed_server'}, {'op': op})
+            self.violate({'kind': 'failed_remove_changed_server', 'exc': res.get('exc'),
+                          'cause': self.degraded_cause(m, k)}, {'op': op})
+        # ---- an instance deleted by this manager that a DIFFERENT live manager object holds in its owned lists:
+        #      that manager's view is disturbed from now on (cross-manager interference, see C18-KF2)
+        for kk in range(nsrv):
+            stb, sta = before['stores'][kk], after['stores'][kk]
+            gone = {'f': {tup(x) for x in stb['f']} - {tup(x) for x in sta['f']},
+                    'd': {tup(x) for x in stb['d']} - {tup(x) for x in sta['d']},
+                    's': subkeys(stb) - subkeys(sta)}
+            for mg in before['mgrs']:
+                if mg['m'] == m:
+                    continue
+                for reg in mg['regs']:
+                    if reg['s'] != kk:
+                        continue
+                    for cls, key in (('f', 'of'), ('d', 'od'), ('s', 'os')):
+                        if reg[key] == 'KeyError':
+                            continue
+                        have = {(tuple(x[0:2]), tuple(x[2:4])) for x in reg[key]} if cls == 's' else \
+                            {tup(x) for x in reg[key]}
+                        if have & gone[cls]:
+                            self.taint[(mg['m'], kk)] = 'sub_end_owned_by_other_manager'
+        if o == 'dropMgr':
+            for key in [x for x in self.taint if x[0] == m]:
+                del self.taint[key]
+        if o == 'removeServer' and 'ok' in res:
+            self.taint.pop((m, k), None)
         # ---- forget what this op deleted
         for kk in range(nsrv):
             stb, sta = before['stores'][kk], after['stores'][kk]
